@@ -436,12 +436,23 @@ def judge_lti(pp, torch, c):
 
 
 # ------------------------------------------------------------------------------------------------ PF with recorded draws
-def pf_run(pp, torch, c, N, seed, kind='nls'):
-    """PF.forward with every random draw and intermediate recorded (the code is called unchanged)"""
+PF_KEYS = ('eps', 'xp', 'logp', 'q', 'ye', 'r', 'x', 'P')
+
+
+def pf_run(pp, torch, c, N, seed, kind='nls', warm=True):
+    """PF.forward with every random draw and intermediate recorded (the code is called unchanged).  The judged call is
+    the SECOND call on its filter object (after a call with other arguments, result discarded).  A record the call
+    did not produce (a draw that was not taken, a helper that was not called) is simply absent from the result:
+    use pf_missing to find out."""
     import torch.distributions.multivariate_normal as mvn
     T = lambda v: torch.tensor(v, dtype=torch.float64)
     model = build_system(pp, torch, c['S'], kind)
     pf = pp.module.PF(model, particles=N)
+    if warm:
+        try:
+            pf(T(c['x']) + 0.5, T(c['y']) - 0.25, T(c['u']), T(c['P']) * 1.5, T(c['Q']) * 2.0, T(c['R']) * 3.0)
+        except Exception:   # noqa  (only the judged call matters)
+            pass
     rec = {}
     o_std, o_lp, o_rand = mvn._standard_normal, mvn.MultivariateNormal.log_prob, torch.rand
     o_gen, o_rel = pf.generate_particles, pf.relative_likelihood
@@ -482,6 +493,134 @@ def pf_run(pp, torch, c, N, seed, kind='nls'):
     return {k: v.tolist() for k, v in rec.items()}
 
 
+def pf_missing(rec, c, N):
+    """names of the records of pf_run that are absent or do not have the shape the documented algorithm gives them
+    (N standard-normal rows for the prior, N particles, N log-likelihoods, N weights, N uniforms for the resampling)"""
+    np = np_()
+    n, m = len(c['x']), len(c['y'])
+    want = dict(eps=(N, n), xp=(N, n), logp=(N,), q=(N,), ye=(N, m), r=(N,), x=(n,), P=(n, n))
+    bad = []
+    for k in PF_KEYS:
+        try:
+            a = np.array(rec[k], dtype=float)
+            if a.shape != want[k] or not np.all(np.isfinite(a)):
+                bad.append(k)
+        except Exception:   # noqa
+            bad.append(k)
+    return bad
+
+
+def bernstein(var1, bound, N, L=23.1):
+    """deviation t with  P(|mean of N iid draws - expectation| > t) <= 2 exp(-L) = 2e-10  (Bernstein's inequality for
+    draws of variance var1 with |X - EX| <= bound): no normal approximation, valid for every N and every weight pattern"""
+    np = np_()
+    a = 2.0 * bound * L / 3.0
+    return (a + np.sqrt(a * a + 8.0 * N * var1 * L)) / (2.0 * N)
+
+
+def pf_cond(c, rec, N):
+    """The resampling clause conditionally on the particles.  The prior particles are rebuilt from the recorded standard
+    normal draws (x + chol(nP) eps), propagated through f, weighted by the Gaussian likelihood of y (all in numpy, from
+    the property text).  Given the particles, the documented estimate is the mean of N independent draws from them with
+    the importance weights q, and the covariance Q + their sample covariance: so they lie within the Bernstein deviation
+    (failure probability 2e-10 per entry) of  sum_i q_i xs_i  and  Q + sum_i q_i (xs_i - m)(xs_i - m)^T.
+    Returns None when the particles cannot be rebuilt, else a dict."""
+    np = np_()
+    n = len(c['x'])
+    S = c['S']
+    bad = pf_missing(rec, c, N)
+    if 'x' in bad or 'P' in bad:
+        return None
+    if 'eps' not in bad:
+        xp = np.array(c['x']) + np.array(rec['eps']) @ np.linalg.cholesky(n * np.array(c['P'])).T
+    elif 'xp' not in bad:
+        xp = np.array(rec['xp'])
+    else:
+        return None
+
+    def fq(Mx, Mu, cc, coef, d, X):
+        sq = X * X
+        pad = np.zeros((X.shape[0], d))
+        pad[:, :min(d, X.shape[1])] = sq[:, :min(d, X.shape[1])]
+        return X @ np.array(S[Mx]).T + np.array(S[Mu]) @ np.array(c['u']) + np.array(S[cc]) + np.array(S[coef]) * pad
+    xs = fq('A', 'B', 'c1', 'a', n, xp)
+    d = np.array(c['y']) - fq('C', 'D', 'c2', 'b', len(c['y']), xs)
+    ll = -0.5 * np.einsum('ij,jk,ik->i', d, np.linalg.inv(np.array(c['R'])), d)
+    q = np.exp(ll - ll.max())
+    q = q / q.sum()
+    m = q @ xs
+    dv = xs - m
+    var1 = q @ (dv * dv)
+    sc = max(np.abs(xs).max(), 1e-300)
+    tm = bernstein(var1, np.abs(dv).max(0), N) + REL * sc
+    est, Pe = np.array(rec['x']), np.array(rec['P'])
+    Cw = (dv.T * q) @ dv
+    tP = np.zeros((n, n))
+    for i in range(n):
+        for j in range(n):
+            pr = dv[:, i] * dv[:, j]
+            tP[i, j] = bernstein(max(q @ (pr * pr) - Cw[i, j] ** 2, 0.0), np.abs(pr - Cw[i, j]).max(), N) + tm[i] * tm[j] + REL * sc * sc
+    um = xs.mean(0)
+    ud = xs - um
+    return dict(est=est, wmean=m, tol_mean=tm, dev_mean=np.abs(est - m), se=np.sqrt(var1 / N), cov=Pe, wcov=np.array(c['Q']) + Cw, tol_cov=tP,
+                dev_cov=np.abs(Pe - np.array(c['Q']) - Cw), neff=float(1.0 / (q * q).sum()), umean=um, ucov=np.array(c['Q']) + ud.T @ ud / N, scale=sc)
+
+
+def judge_pf_cond(pp, torch, case, rec=None):
+    """[(key, what)] of the conditional resampling clause on one PF call"""
+    np = np_()
+    c, N, seed = case['case'], case['N'], case['seed']
+    if not (is_spd(c['P']) and is_spd(c['Q']) and is_spd(c['R'])):
+        return []
+    if rec is None:
+        rec = pf_run(pp, torch, c, N, seed, case.get('syskind', 'nls'))
+    b = pf_cond(c, rec, N)
+    if b is None:
+        return []
+    out = []
+    head = 'PF (N=%d particles, effective sample size %.3g N, torch seed %d)' % (N, b['neff'] / N, seed)
+    if np.any(b['dev_mean'] > b['tol_mean']):
+        i = int(np.argmax(b['dev_mean'] / b['tol_mean']))
+        hint = ' (it equals the UNWEIGHTED mean of the propagated particles: the importance weights / the resampling were not applied)' \
+            if np.abs(b['est'] - b['umean']).max() <= REL * b['scale'] else ''
+        out.append(('PF.forward:estimate-outside-resampling-band-of-importance-weighted-mean',
+                    '%s returns mean %r; the importance-weighted mean of its own propagated particles is %r; component %d is %.1f resampling '
+                    'standard errors away (allowed deviation %.3g, probability bound 2e-10)%s'
+                    % (head, b['est'].tolist(), b['wmean'].tolist(), i, b['dev_mean'][i] / max(b['se'][i], 1e-300), b['tol_mean'][i], hint)))
+    if np.any(b['dev_cov'] > b['tol_cov']):
+        i, j = np.unravel_index(int(np.argmax(b['dev_cov'] / b['tol_cov'])), b['dev_cov'].shape)
+        hint = ' (it equals Q + the UNWEIGHTED covariance of the propagated particles)' if np.abs(b['cov'] - b['ucov']).max() <= REL * b['scale'] ** 2 else ''
+        out.append(('PF.forward:covariance-outside-resampling-band-of-Q+importance-weighted-covariance',
+                    '%s returns covariance %r; Q + importance-weighted covariance of its own propagated particles is %r; entry (%d,%d) deviates by %.3g '
+                    '(allowed %.3g, probability bound 2e-10)%s' % (head, b['cov'].tolist(), b['wcov'].tolist(), i, j, b['dev_cov'][i, j], b['tol_cov'][i, j], hint)))
+    return out
+
+
+def gen_pf_regime(rng, n, m, p, ratio, nonlinear=False, offset=1.0):
+    """a PF case whose measurement noise is `ratio` times the spread C (A nP A^T) C^T of the predicted observation
+    (ratio << 1: informative measurement, weights concentrate; ratio >> 1: weakly informative, nearly uniform weights);
+    the measurement lies `offset` innovation standard deviations from the predicted observation"""
+    np = np_()
+    c = gen_case(rng, n, m, p, nonlinear=(0.05 if nonlinear else False), scales=[10.0 ** rng.uniform(-2, 0), 1.0, 10.0 ** rng.uniform(-1, 1)])
+    S = c['S']
+    x = np.array(c['x'])
+    A = np.array(S['A']) + 2 * np.diag(np.array(S['a']) * x)
+    C = np.array(S['C'], dtype=float).copy()
+    xpred = np.array(S['A']) @ x + np.array(S['B']) @ np.array(c['u']) + np.array(S['c1']) + np.array(S['a']) * x * x
+    for i in range(min(C.shape)):
+        C[i, i] += 2 * S['b'][i] * xpred[i]
+    Sy = C @ (n * A @ np.array(c['P']) @ A.T) @ C.T
+    R = np.array(spd(rng, m, 1.0)) * ratio * max(np.trace(Sy) / m, 1e-12)
+    c['R'] = ((R + R.T) / 2).tolist()
+    sq = np.zeros(m)
+    sq[:min(m, n)] = (xpred * xpred)[:min(m, n)]
+    ypred = np.array(S['C']) @ xpred + np.array(S['D']) @ np.array(c['u']) + np.array(S['c2']) + np.array(S['b']) * sq
+    z = np.array([rng.gauss(0, 1) for _ in range(m)])
+    z = z / max(np.linalg.norm(z), 1e-12) * offset * math.sqrt(m)
+    c['y'] = (ypred + np.linalg.cholesky(Sy + R + 1e-12 * np.eye(m)) @ z).tolist()
+    return c
+
+
 def pf_posterior_means(c):
     """closed-form posterior mean of the particle model for a LINEAR system:
     prior x0 ~ N(x, nP), x- = A x0 + B u + c1 (no process noise on the particles), weights from N(y; h(.), R).
@@ -503,11 +642,13 @@ def pf_posterior_means(c):
     return [float(t) for t in col(doc)], [float(t) for t in col(coded)]
 
 
-def judge_pf_band(pp, torch, c, N, seed):
+def judge_pf_band(pp, torch, c, N, seed, rec=None):
     """Monte-Carlo band: the PF mean against the closed-form posterior mean (linear system).  sigma is the delta-method
     standard error of the self-normalised importance-sampling estimate plus the multinomial resampling error."""
     np = np_()
-    rec = pf_run(pp, torch, c, N, seed)
+    rec = pf_run(pp, torch, c, N, seed) if rec is None else rec
+    if any(k in pf_missing(rec, c, N) for k in ('q', 'xp', 'x')):
+        return None
     doc, coded = pf_posterior_means(c)
     q = np.array(rec['q'])
     S = c['S']
@@ -673,6 +814,15 @@ class Run:
             return
         n = len(c['x'])
         ctx.case(('pf', N, seed, repr(c)), nontrivial=True, branch='pf-%s-n%d-N%d' % ('lin' if is_linear(c['S']) else 'nonlin', n, N))
+        # the resampling clause given the particles (rigorous band, every N)
+        self.report(judge_pf_cond(self.pp, self.torch, meta, rec), dict(meta, kind='pfcond'))
+        bad = [k for k in pf_missing(rec, c, N) if k != 'ye']
+        if bad:
+            # a draw / intermediate of the documented algorithm was not produced on this input: the call cannot be tied
+            # to the model; the search at the end looks for a failing input at and around this one
+            ctx.count('pf-records-missing:' + ','.join(bad))
+            ctx.mismatch('pf-records-missing', strip(meta), 'not recorded in this call: ' + ', '.join(bad))
+            return
         i = len(self.metas)
         self.metas.append(meta)
         sxp = max(np.abs(np.array(rec['xp'])).max(), 1e-300)
@@ -777,10 +927,11 @@ def witnesses(R):
     R.report(judge_pf(pp, torch, meta), meta)
 
 
-def judge_pf(pp, torch, meta):
-    b = judge_pf_band(pp, torch, meta['case'], meta['N'], meta['seed'])
-    out = []
-    if b['neff'] < 50:        # weights collapsed onto a few particles: the standard error estimate is not reliable
+def judge_pf(pp, torch, meta, rec=None):
+    rec = pf_run(pp, torch, meta['case'], meta['N'], meta['seed']) if rec is None else rec
+    out = judge_pf_cond(pp, torch, meta, rec)      # given the particles: resampled mean / covariance against the weighted ones
+    b = judge_pf_band(pp, torch, meta['case'], meta['N'], meta['seed'], rec)
+    if b is None or b['neff'] < 50:        # weights collapsed onto a few particles: the standard error estimate is not reliable
         return out
     if b['z_documented'] > 6:
         hint = ' (within %.1f sigma of the model with the likelihood evaluated at the pre-transition particles %r: defect repaired by b057b94)' \
@@ -863,17 +1014,48 @@ def run(ctx):
         meta = dict(kind='pfband', case=c, N=rng.choice([1000, 20000, 200000] + ([1000000] if ctx.thorough and t % 10 == 0 else [])), seed=rng.randint(0, 10 ** 6))
         ctx.case(('pfband', repr(c)), branch='pf-band')
         R.report(judge_pf(pp, torch, meta), meta)
+    # ---- PF: regimes of the measurement information (noise / spread of the predicted observation from 1e-2 to 1e3: effective
+    # sample size from a few particles to ~N), every state dimension, linear and nonlinear: resampling clause given the particles,
+    # and on linear systems the 6-sigma band around the closed-form posterior mean
+    for t in range(ctx.scale(36, 240)):
+        n = t % 6 + 1
+        m, p = rng.randint(1, 6 if n > 3 else 3), rng.randint(1, 3)
+        ratio = 10.0 ** (-2.0 + 5.0 * ((t // 6) % 6 + rng.random()) / 6.0)
+        c = gen_pf_regime(rng, n, m, p, ratio, nonlinear=(t % 4 == 3), offset=rng.choice([0.5, 1.0, 1.5]))
+        N = [1000, 20000, 200000][(t // 2) % 3] if not (ctx.thorough and t % 40 == 0) else 1000000
+        meta = dict(kind='pfband' if is_linear(c['S']) else 'pfcond', case=c, N=N, seed=rng.randint(0, 10 ** 6), syskind='nls')
+        try:
+            rec = pf_run(pp, torch, c, N, meta['seed'])
+            b = pf_cond(c, rec, N)
+        except Exception as e:  # noqa
+            ctx.violation('PF.forward:raises', 'PF.forward raised %s: %s' % (type(e).__name__, e), meta)
+            continue
+        ess = (b['neff'] / N) if b else float('nan')
+        ctx.case(('pfregime', N, repr(c)), branch='pf-regime-ess:%s-%s' % ('unknown' if b is None else 'above-N/2' if ess > 0.5 else 'N/10..N/2' if ess > 0.1 else 'below-N/10',
+                                                                           'lin' if is_linear(c['S']) else 'nonlin'))
+        R.report(judge_pf(pp, torch, meta, rec) if meta['kind'] == 'pfband' else judge_pf_cond(pp, torch, meta, rec), meta)
     # ---- Coq
     R.run_coq()
     ctx.notes.append('model evaluated by vm_compute in 320-bit binary fixed point (Bignums BigZ); tolerance %g of the natural scale' % REL)
     ctx.assumptions += ['torch.linalg.pinv is the inverse on SPD input (pinv_ok)', 'msqrt returns a factor L with L L^T = M (factor_ok; torch.linalg.cholesky: cholesky_ok)',
                         'time argument t of the system callbacks not modelled']
     # ---- search: the property directly on the mismatching inputs
+    budget = 12
     for mm in ctx.mismatches[:40]:
         why = replay(ctx, mm['case'], new_only=True)
         if why:
             mm['explained'] = True
             ctx.violation(why[0], why[1], dict(mm['case'], expect_key=why[0]))
+        elif mm['case'].get('kind') == 'pf' and budget > 0:
+            # the same filter inputs with more particles (the resampling band shrinks like 1/sqrt(N))
+            budget -= 1
+            for N2 in (2000, 50000, 400000):
+                cs = dict(kind='pfcond', case=mm['case']['case'], N=N2, seed=mm['case']['seed'], syskind=mm['case'].get('syskind', 'nls'))
+                why = replay(ctx, cs, new_only=True)
+                if why:
+                    mm['explained'] = True
+                    ctx.violation(why[0], why[1], dict(cs, expect_key=why[0]))
+                    break
 
 
 def replay(ctx, case, new_only=False):
@@ -892,6 +1074,8 @@ def replay(ctx, case, new_only=False):
         res = judge_pf(pp, torch, case)
     elif kind == 'pf':
         res = judge_pf_parts(pp, torch, case)
+    elif kind == 'pfcond':
+        res = judge_pf_cond(pp, torch, case)
     else:
         res = []
     if new_only:
@@ -907,7 +1091,10 @@ def judge_pf_parts(pp, torch, case):
     np = np_()
     c, N, seed = case['case'], case['N'], case['seed']
     rec = pf_run(pp, torch, c, N, seed, case.get('syskind', 'nls'))
-    out = []
+    out = judge_pf_cond(pp, torch, case, rec)
+    bad = pf_missing(rec, c, N)
+    if any(k in bad for k in ('xp', 'eps', 'logp', 'x', 'P')):
+        return out
     n = len(c['x'])
     S = c['S']
     xp, eps = np.array(rec['xp']), np.array(rec['eps'])
@@ -933,6 +1120,8 @@ def judge_pf_parts(pp, torch, case):
         hint = ' (they are those of the pre-transition particles: defect repaired by b057b94)' if np.abs((lp - lp[0]) - (old - old[0])).max() <= tol else ''
         out.append(('PF.forward:log-likelihoods-not-those-of-the-propagated-particles', 'log_prob %r; expected differences %r%s'
                     % (lp.tolist(), (doc - doc[0]).tolist(), hint)))
+    if 'q' in bad or 'r' in bad:
+        return out
     q, r = np.array(rec['q']), np.array(rec['r'])
     cs = np.cumsum(q)
     if all(np.abs(cs - ri).min() > 1e-9 for ri in r):
